@@ -56,6 +56,10 @@ func structLayout(p *types.Package, name string) (fields []string, size int64) {
 }
 
 func genClientConsts(repo string, root *pkg) {
+	runGen("genClientConsts", []string{"ClientConsts"}, func() { genClientConstsImpl(repo, root) })
+}
+
+func genClientConstsImpl(repo string, root *pkg) {
 	var b bytes.Buffer
 	b.WriteString("namespace LA.Gen.ClientConsts\n")
 	b.WriteString("-- audit.go\n")
